@@ -110,6 +110,44 @@ def forbidden_items(v, family_json_leaves, no_dots):
     return out
 
 
+class BufStore(Store):
+    """The resource as a buffered collection sees it inside buffer_backend(): the buffer entry of the file (decoded) while
+    there is one, else the file.  A 'write' is a call of _save_to_buffer for that file (counted by a class-level wrapper)."""
+    saves = {}
+
+    def __init__(self, ns, cls, tmpdir, name):
+        super().__init__(ns, cls, tmpdir, name)
+        if not getattr(cls, "_verif_counting", False):
+            orig = cls._save_to_buffer
+
+            def counted(self_, _orig=orig):
+                BufStore.saves[self_._filename] = BufStore.saves.get(self_._filename, 0) + 1
+                return _orig(self_)
+            cls._save_to_buffer = counted
+            cls._verif_counting = True
+
+    def read(self):
+        entry = self.cls._buffer.get(self.path)
+        if entry is None:
+            return super().read()
+        c = entry["contents"]
+        if isinstance(c, (bytes, bytearray)):
+            return json.loads(c)
+
+        def plain(o):
+            if is_synced(o):
+                o = raw_data(o)
+            if isinstance(o, dict):
+                return {k: plain(v) for k, v in o.items()}
+            if isinstance(o, list):
+                return [plain(v) for v in o]
+            return o
+        return plain(c)
+
+    def stamp(self):
+        return ("saves", BufStore.saves.get(self.path, 0))
+
+
 class Session:
     def __init__(self, ns, rows, index, seed, root_cls, profile, tmpdir):
         self.ns, self.rows, self.index = ns, rows, index
@@ -188,7 +226,7 @@ class Session:
 
     # ---- steps
     def new_store(self):
-        st = Store(self.ns, self.root_cls, self.tmpdir, f"s{self.seed}_{len(self.stores)}")
+        st = (BufStore if self.profile.get("buffered") else Store)(self.ns, self.root_cls, self.tmpdir, f"s{self.seed}_{len(self.stores)}")
         self.stores.append(st)
         return len(self.stores) - 1
 
@@ -218,7 +256,46 @@ class Session:
         self.count("new")
         return oid
 
+    def same_size_variant(self, cur):
+        """Another JSON value whose encoding has exactly the same length (one digit / letter / literal changed)."""
+        cur = copy.deepcopy(cur)
+        spots = []
+
+        def rec(v, parent, k):
+            if isinstance(v, dict):
+                for kk, x in v.items():
+                    rec(x, v, kk)
+            elif isinstance(v, list):
+                for i, x in enumerate(v):
+                    rec(x, v, i)
+            elif parent is not None:
+                if type(v) is int and 0 <= v <= 8:
+                    spots.append((parent, k, v + 1))
+                elif v is True:
+                    spots.append((parent, k, None))
+                elif v is None:
+                    spots.append((parent, k, True))
+                elif v in ("a", "b"):
+                    spots.append((parent, k, "b" if v == "a" else "a"))
+        rec(cur, None, None)
+        if not spots:
+            return None
+        parent, k, nv = self.g.r.choice(spots)
+        parent[k] = nv
+        return cur
+
     def step_ext(self, si, value):
+        st_ = self.stores[si]
+        if (st_.family == "json" and not self.profile.get("buffered") and self.g.r.random() < self.profile.get("stealth", 0.25)
+                and st_.read() is not MISSING):
+            # an outside writer that leaves the file's size and timestamps as they were
+            variant = self.same_size_variant(st_.read())
+            if variant is not None and len(json.dumps(variant)) == len(json.dumps(st_.read())):
+                st_.write(variant, stealth=True)
+                before = [s.stamp() for s in self.stores]   # out-of-band writes are not library writes
+                self.emit(f"(KExt {si} (Some {c_val(variant)}))", "KAny", before, {"op": "ext-same-size-and-mtime", "store": si, "value": jsonable(variant)})
+                self.count("ext-stealth")
+                return
         before = [s.stamp() for s in self.stores]
         self.stores[si].write(copy.deepcopy(value))
         before = [s.stamp() for s in self.stores]   # out-of-band writes are not library writes
@@ -488,6 +565,23 @@ class Session:
 
     # ---- driver
     def run(self, nsteps):
+        if self.profile.get("buffered"):
+            cls = self.root_cls
+            try:
+                with cls.buffer_backend():
+                    self.run_inner(nsteps)
+                # C05: at the outermost exit every file holds exactly the final logical content
+                for oid, o, si in self.objs:
+                    disk = Store.read(self.stores[si])
+                    mem = o._to_base()
+                    if disk is not MISSING and not strict_eq(disk, mem):
+                        self.fail("C05-final", f"after buffer_backend() exited the file holds {jsonable(disk)}, the collection {jsonable(mem)}")
+            finally:
+                reset_buffer_class(cls)
+            return
+        self.run_inner(nsteps)
+
+    def run_inner(self, nsteps):
         p = self.profile
         self.ext_invalid = False
         nres = p.get("resources", 1)
@@ -512,6 +606,14 @@ class Session:
             return
         for _ in range(nsteps):
             r = self.g.r.random()
+            if p.get("buffered") and self.g.r.random() < p.get("blip", 0) and self.objs:
+                # a nested per-object context that is entered and left: transparent (no model step, nothing to compare)
+                o_ = self.g.r.choice(self.objs)[1]
+                with o_.buffered:
+                    if self.g.r.random() < 0.5:
+                        o_()
+                self.count("blip")
+                self.after_blip = True
             live = self.live_labels()
             if r < p.get("ext", 0):
                 si = self.g.r.randrange(len(self.stores))
@@ -715,7 +817,9 @@ PROFILES = {
     "C02": {"objects": 2, "resources": 1, "reads": 0.6, "ext": 0.25, "ext_remove": 0.12, "deep": 0.7, "navigate": 0.6, "init": True, "vdepth": 3},
     "C03": {"objects": 1, "resources": 1, "reads": 0.45, "deep": 0.4, "navigate": 0.4},
     "C03b": {"objects": 2, "resources": 1, "reads": 0.5, "ext": 0.08, "newobj": 0.06, "deep": 0.5, "navigate": 0.5, "init": True, "synced_cmp": 0.6},
-    "C04": {"objects": 3, "resources": 1, "reads": 0.2, "deep": 0.7, "navigate": 0.7, "init": True, "newobj": 0.03},
+    "C05k1": {"objects": 1, "resources": 1, "reads": 0.3, "deep": 0.6, "navigate": 0.7, "init": True, "buffered": True, "blip": 0.12,
+              "detached": 0.0, "synced_cmp": 0.3},
+    "C04": {"objects": 3, "resources": 1, "reads": 0.2, "ext": 0.08, "stealth": 0.6, "deep": 0.7, "navigate": 0.7, "init": True, "newobj": 0.03},
     "C11": {"objects": 1, "resources": 1, "reads": 0.1, "deep": 0.6, "navigate": 0.5, "invalid": 0.5, "ctor_data": 0.7},
     "C12": {"objects": 1, "resources": 1, "reads": 0.2, "deep": 0.5, "navigate": 0.5, "vdepth": 4, "ctor_data": 0.3},
     "C17": {"objects": 2, "resources": 2, "reads": 0.85, "deep": 0.5, "navigate": 0.5, "ext": 0.12, "ext_remove": 0.35, "init": True, "ctor_data": 0.3},
